@@ -277,7 +277,7 @@ Proof.
   assert (Hd : es_all (default es_empty (q !! k)) ## T).
   { destruct (q !! k) as [es|] eqn:E; cbn; [|set_solver].
     eapply qinv_others_disj_fresh; eauto. }
-  eapply QInv_insert; [exact HQ|apply others_same; exact HQ| | |].
+  eapply QInv_insert; [exact HQ|eapply others_same; exact HQ| | |].
   - apply esi_of_pre.
     + eapply (esp_add_on_time qs tbl F k _ es' T); try eassumption.
       * eapply qinv_pre_at; eauto.
